@@ -6,12 +6,14 @@ import GLua.Proofs.LoweringValue3
 namespace GLua.Lowering
 open GLua.Compile GLua.MiniVM GLua.CondSpec
 
+variable [NumStruct]
+set_option linter.unusedSectionVars false
 variable {V : Type}
 
 /-- standing hypotheses of one compileLogicalOpExprAux call. -/
 structure AuxHyp (st F : CState) (reg : Nat) (ec : ExpCtx) (thenl elsel : Nat) (hasnext : Bool) (lb : LbLabels) : Prop where
   htop : st.regTop ≤ reg
-  hreg : reg + 1 < 256
+  hreg : reg < 256
   hsreg : savereg ec reg ≤ reg
   hthen : thenl < st.labelId
   helse : elsel < st.labelId
@@ -31,7 +33,7 @@ structure AuxHyp (st F : CState) (reg : Nat) (ec : ExpCtx) (thenl elsel : Nat) (
 /-- the aux-mode statement. -/
 def AuxSem (d : Dom V) (e : Cond) : Prop :=
   ∀ (st F : CState) (reg : Nat) (ec : ExpCtx) (thenl elsel : Nat) (hasnext : Bool) (lb : LbLabels) (b : Bool) (ρ γ : Nat → V) (v : V),
-    AuxHyp st F reg ec thenl elsel hasnext lb → LocalsBelow reg e → eval d ρ γ e = some v →
+    AuxHyp st F reg ec thenl elsel hasnext lb → LocalsBelow reg e → reg + rh e < 256 → eval d ρ γ e = some v →
     Emb F (comp e (.aux reg ec thenl elsel hasnext lb b) st).st.code lb.e (hasnext = false ∧ thenl = elsel) →
     (comp e (.aux reg ec thenl elsel hasnext lb b) st).st.consts <+: F.consts →
     (∀ L, st.labelId ≤ L → L < (comp e (.aux reg ec thenl elsel hasnext lb b) st).st.labelId →
@@ -58,7 +60,7 @@ theorem load_jmp (d : Dom V) (e : Cond) (he : isLeaf e = true) {st F : CState} {
   exact h1.trans (Emb.final_jmp d hE' hL _ γ)
 
 theorem auxSem_fls (d : Dom V) (hd : d.Lawful) : AuxSem d .fls := by
-  intro st F reg ec thenl elsel hasnext lb b ρ γ v H _ hev hE _ _
+  intro st F reg ec thenl elsel hasnext lb b ρ γ v H _ _ hev hE _ _
   simp only [eval, Option.some.injEq] at hev; subst hev
   simp only [comp] at hE ⊢
   by_cases he : elsel = lb.e
@@ -70,7 +72,7 @@ theorem auxSem_fls (d : Dom V) (hd : d.Lawful) : AuxSem d .fls := by
     exact JT_ne he ⟨rfl, FullFrame.refl _ _⟩
 
 theorem auxSem_tru (d : Dom V) (hd : d.Lawful) : AuxSem d .tru := by
-  intro st F reg ec thenl elsel hasnext lb b ρ γ v H _ hev hE _ _
+  intro st F reg ec thenl elsel hasnext lb b ρ γ v H _ _ hev hE _ _
   simp only [eval, Option.some.injEq] at hev; subst hev
   simp only [comp] at hE ⊢
   by_cases he : thenl = lb.e
@@ -82,7 +84,7 @@ theorem auxSem_tru (d : Dom V) (hd : d.Lawful) : AuxSem d .tru := by
     exact JT_ne he ⟨rfl, FullFrame.refl _ _⟩
 
 theorem auxSem_nil (d : Dom V) (hd : d.Lawful) : AuxSem d .nil := by
-  intro st F reg ec thenl elsel hasnext lb b ρ γ v H hloc hev hE hK _
+  intro st F reg ec thenl elsel hasnext lb b ρ γ v H hloc _ hev hE hK _
   simp only [comp] at hE hK ⊢
   have hv : v = d.nilV := by simp only [eval, Option.some.injEq] at hev; exact hev.symm
   by_cases he : elsel = lb.e
@@ -94,9 +96,9 @@ theorem auxSem_nil (d : Dom V) (hd : d.Lawful) : AuxSem d .nil := by
     exact JT_ne he ⟨rfl, FullFrame.refl _ _⟩
 
 theorem auxSem_num (d : Dom V) (hd : d.Lawful) (n : Int) : AuxSem d (.num n) := by
-  intro st F reg ec thenl elsel hasnext lb b ρ γ v H hloc hev hE hK _
+  intro st F reg ec thenl elsel hasnext lb b ρ γ v H hloc _ hev hE hK _
   simp only [comp] at hE hK ⊢
-  have hv : v = d.num n := by simp only [eval, Option.some.injEq] at hev; exact hev.symm
+  have hv : v = d.num (NumStruct.lit n) := by simp only [eval, Option.some.injEq] at hev; exact hev.symm
   by_cases he : thenl = lb.e
   · simp only [he, if_true] at hE hK ⊢
     refine ⟨_, _, load_jmp d (.num n) rfl hloc hev hE (by simpa using hK) H.okE, fun _ => Or.inl ?_, fun h => by simp [hv, hd.num_truthy] at h⟩
@@ -106,7 +108,7 @@ theorem auxSem_num (d : Dom V) (hd : d.Lawful) (n : Int) : AuxSem d (.num n) := 
     exact JT_ne he ⟨rfl, FullFrame.refl _ _⟩
 
 theorem auxSem_str (d : Dom V) (hd : d.Lawful) (n : String) : AuxSem d (.str n) := by
-  intro st F reg ec thenl elsel hasnext lb b ρ γ v H hloc hev hE hK _
+  intro st F reg ec thenl elsel hasnext lb b ρ γ v H hloc _ hev hE hK _
   simp only [comp] at hE hK ⊢
   have hv : v = d.str n := by simp only [eval, Option.some.injEq] at hev; exact hev.symm
   by_cases he : thenl = lb.e
@@ -118,44 +120,32 @@ theorem auxSem_str (d : Dom V) (hd : d.Lawful) (n : String) : AuxSem d (.str n) 
     exact JT_ne he ⟨rfl, FullFrame.refl _ _⟩
 
 
-theorem relLeaf_last (l r : Cond) (st : CState) (reg : Nat) (op : RelOp) (flip L : Nat) :
-    ∃ pre, (relLeaf l r st reg op flip L).code = pre ++ [.jmp (L : Int)] :=
-  ⟨(opnd true r (opnd true l reg st).2.2 (opnd true l reg st).1).1.code ++
-      [relInstr op flip (opnd true l reg st).2.1 (opnd true r (opnd true l reg st).2.2 (opnd true l reg st).1).2.1], by simp [relLeaf]⟩
+theorem relCode_last (op : RelOp) (l r : Cond) (st : CState) (reg flip L : Nat) :
+    ∃ pre, (relCode op l r st reg flip L).code = pre ++ [.jmp (L : Int)] :=
+  ⟨(bops l r st reg).1.code ++ [relInstr op flip (bops l r st reg).2.1 (bops l r st reg).2.2], by simp [relCode]⟩
 
-/-- the (flip, jump label, lb.b) that compileLogicalOpExprAux chooses for a relational operand. -/
-def relChoice (thenl elsel : Nat) (hasnext : Bool) (lb : LbLabels) (b : Bool) : Nat × Nat × Bool :=
-  if thenl = elsel then (1 - flipOf hasnext, lb.t, true)
-  else if thenl = lb.e then (flipOf hasnext, lb.t, true)
-  else if elsel = lb.e then (flipOf hasnext, lb.f, true)
-  else (flipOf hasnext, if hasnext then thenl else elsel, b)
-
-theorem aux_rel_eq (op : RelOp) (l r : Cond) (hl : isLeaf l = true) (hr : isLeaf r = true) (st : CState) (reg : Nat) (ec : ExpCtx)
-    (thenl elsel : Nat) (hasnext : Bool) (lb : LbLabels) (b : Bool) :
-    comp (.rel op l r) (.aux reg ec thenl elsel hasnext lb b) st =
-      { st := relLeaf l r st reg op (relChoice thenl elsel hasnext lb b).1 (relChoice thenl elsel hasnext lb b).2.1,
-        b := (relChoice thenl elsel hasnext lb b).2.2 } := by
-  simp only [comp, relAux_leaf l r hl hr, relChoice]
-
-theorem auxSem_rel (d : Dom V) (hd : d.Lawful) (op : RelOp) (l r : Cond) (hl : isLeaf l = true) (hr : isLeaf r = true) :
-    AuxSem d (.rel op l r) := by
-  intro st F reg ec thenl elsel hasnext lb b ρ γ v H hloc hev hE hK _
+theorem auxSem_rel (d : Dom V) (hd : d.Lawful) (op : RelOp) (l r : Cond) (hfl : ExprFrame l) (hfr : ExprFrame r)
+    (hl : ExprSem d l) (hr : ExprSem d r) : AuxSem d (.rel op l r) := by
+  intro st F reg ec thenl elsel hasnext lb b ρ γ v H hloc hreg hev hE hK hlab
   have hvb := rel_val_bool d hd hev
   simp only [LocalsBelow] at hloc
-  rw [aux_rel_eq op l r hl hr] at hE hK ⊢
+  simp only [rh] at hreg
+  rw [aux_rel_eq op l r] at hE hK hlab ⊢
   -- the generic step: whatever (flip, L) was chosen with L ≠ lb.e
   have run : ∀ (flip L : Nat) (hflip : flip = 0 ∨ flip = 1) (hLne : L ≠ lb.e) (hLok : LabelOK F L)
-      (hE' : Emb F (relLeaf l r st reg op flip L).code lb.e (hasnext = false ∧ thenl = elsel))
-      (hK' : (relLeaf l r st reg op flip L).consts <+: F.consts),
+      (hE' : Emb F (relCode op l r st reg flip L).code lb.e (hasnext = false ∧ thenl = elsel))
+      (hK' : (relCode op l r st reg flip L).consts <+: F.consts)
+      (hlab' : ∀ L', st.labelId ≤ L' → L' < (relCode op l r st reg flip L).labelId →
+        getLabelPc F L' = getLabelPc (relCode op l r st reg flip L) L'),
       ∃ ρ', Reaches d (P0 F) F.consts ⟨st.code.length, ρ, γ⟩
-          ⟨if d.truthy v = decide (flip = 1) then tgt F L else (relLeaf l r st reg op flip L).code.length, ρ', γ⟩ ∧
+          ⟨if d.truthy v = decide (flip = 1) then tgt F L else (relCode op l r st reg flip L).code.length, ρ', γ⟩ ∧
         FullFrame reg ρ ρ' := by
-    intro flip L hflip hLne hLok hE' hK'
-    obtain ⟨pre, hpre⟩ := relLeaf_last l r st reg op flip L
-    have hfull : (relLeaf l r st reg op flip L).code <+: F.code := by
+    intro flip L hflip hLne hLok hE' hK' hlab'
+    obtain ⟨pre, hpre⟩ := relCode_last op l r st reg flip L
+    have hfull : (relCode op l r st reg flip L).code <+: F.code := by
       rw [hpre] at hE' ⊢
       exact hE'.full_of_last (by intro h; injection h with h; exact hLne (by exact_mod_cast h))
-    exact relLeaf_sem d hd l r hl hr st F reg op flip L ρ γ v H.htop hloc.1 hloc.2 H.hreg hev hflip hfull hK' hLok
+    exact relCode_sem d hd op l r hfl hfr hl hr st F reg flip L ρ γ v H.htop hloc.1 hloc.2 hreg hev hflip H.allOK hfull hK' hlab'
   -- closing a case: the jump is taken iff truthiness = jmpOnTrue
   have absT : ∀ {X : Prop}, d.truthy v = true → d.truthy v = false → X := fun h1 h2 => by rw [h1] at h2; cases h2
   by_cases h1 : thenl = elsel
@@ -167,8 +157,8 @@ theorem auxSem_rel (d : Dom V) (hd : d.Lawful) (op : RelOp) (l r : Cond) (hl : i
       | true => exact absurd (h1 ▸ he) (H.disc.d1 hh)
     have hch : relChoice thenl elsel hasnext lb b = (1, lb.t, true) := by
       unfold relChoice; rw [if_pos h1]; simp [hn, flipOf]
-    rw [hch] at hE hK ⊢
-    obtain ⟨ρ', hr', hf'⟩ := run 1 lb.t (Or.inr rfl) (fun h => H.het h.symm) H.okT hE hK
+    rw [hch] at hE hK hlab ⊢
+    obtain ⟨ρ', hr', hf'⟩ := run 1 lb.t (Or.inr rfl) (fun h => H.het h.symm) H.okT hE hK hlab
     cases ht : d.truthy v with
     | true =>
       rw [ht] at hr' hvb
@@ -182,8 +172,8 @@ theorem auxSem_rel (d : Dom V) (hd : d.Lawful) (op : RelOp) (l r : Cond) (hl : i
     · have hn : hasnext = true := H.disc.d3 h2 h1
       have hch : relChoice thenl elsel hasnext lb b = (1, lb.t, true) := by
         unfold relChoice; rw [if_neg h1, if_pos h2]; simp [hn, flipOf]
-      rw [hch] at hE hK ⊢
-      obtain ⟨ρ', hr', hf'⟩ := run 1 lb.t (Or.inr rfl) (fun h => H.het h.symm) H.okT hE hK
+      rw [hch] at hE hK hlab ⊢
+      obtain ⟨ρ', hr', hf'⟩ := run 1 lb.t (Or.inr rfl) (fun h => H.het h.symm) H.okT hE hK hlab
       cases ht : d.truthy v with
       | true =>
         rw [ht] at hr' hvb
@@ -200,8 +190,8 @@ theorem auxSem_rel (d : Dom V) (hd : d.Lawful) (op : RelOp) (l r : Cond) (hl : i
           | true => exact absurd h3 (H.disc.d1 hh)
         have hch : relChoice thenl elsel hasnext lb b = (0, lb.f, true) := by
           unfold relChoice; rw [if_neg h1, if_neg h2, if_pos h3]; simp [hn, flipOf]
-        rw [hch] at hE hK ⊢
-        obtain ⟨ρ', hr', hf'⟩ := run 0 lb.f (Or.inl rfl) (fun h => H.hef h.symm) H.okF hE hK
+        rw [hch] at hE hK hlab ⊢
+        obtain ⟨ρ', hr', hf'⟩ := run 0 lb.f (Or.inl rfl) (fun h => H.hef h.symm) H.okF hE hK hlab
         cases ht : d.truthy v with
         | true =>
           rw [ht] at hr'
@@ -214,8 +204,8 @@ theorem auxSem_rel (d : Dom V) (hd : d.Lawful) (op : RelOp) (l r : Cond) (hl : i
       · by_cases hn : hasnext = true
         · have hch : relChoice thenl elsel hasnext lb b = (1, thenl, b) := by
             unfold relChoice; rw [if_neg h1, if_neg h2, if_neg h3]; simp [hn, flipOf]
-          rw [hch] at hE hK ⊢
-          obtain ⟨ρ', hr', hf'⟩ := run 1 thenl (Or.inr rfl) h2 H.okThen hE hK
+          rw [hch] at hE hK hlab ⊢
+          obtain ⟨ρ', hr', hf'⟩ := run 1 thenl (Or.inr rfl) h2 H.okThen hE hK hlab
           cases ht : d.truthy v with
           | true =>
             rw [ht] at hr'
@@ -228,8 +218,8 @@ theorem auxSem_rel (d : Dom V) (hd : d.Lawful) (op : RelOp) (l r : Cond) (hl : i
         · have hn' : hasnext = false := by simpa using hn
           have hch : relChoice thenl elsel hasnext lb b = (0, elsel, b) := by
             unfold relChoice; rw [if_neg h1, if_neg h2, if_neg h3]; simp [hn', flipOf]
-          rw [hch] at hE hK ⊢
-          obtain ⟨ρ', hr', hf'⟩ := run 0 elsel (Or.inl rfl) h3 H.okElse hE hK
+          rw [hch] at hE hK hlab ⊢
+          obtain ⟨ρ', hr', hf'⟩ := run 0 elsel (Or.inl rfl) h3 H.okElse hE hK hlab
           cases ht : d.truthy v with
           | true =>
             rw [ht] at hr'
